@@ -19,6 +19,13 @@ ITEM_K = 'proof { let k = (%s) as int; assert(all.skip(k)[0] == all[k]); assert(
 CONSUMED = ('finite_iter(it) && (%(k)s) + it.remaining().len() == all.len() && all.skip((%(k)s) as int) =~= it.remaining() && '
             'all_ok(all.take((%(k)s) as int))')
 
+CNT = '(all.len() - it.remaining().len())'
+GROUPED_COMMON = ('finite_iter(it) && n > 0 && 0 <= %(c)s <= all.len() && all.skip(%(c)s) =~= it.remaining() && all_ok(all.take(%(c)s)) && '
+                  '(forall|i: int| 0 <= i < acc@.len() ==> (#[trigger] acc@[i])@ == vs.subrange(i * n, i * n + n))') % dict(c=CNT)
+GROUPED_OUTER = GROUPED_COMMON + ' && group@.len() == 0 && %s == acc@.len() * n' % CNT
+GROUPED_INNER = (GROUPED_COMMON + ' && c0 == acc@.len() * n && %(c)s == c0 + group@.len() && group@.len() < n + 1 && group@ =~= vs.subrange(c0, %(c)s) && '
+                 'it.decrease()->Some_0 <= d0 && (group@.len() > 0 ==> it.decrease()->Some_0 < d0) && group@.len() == jt.index@ && jt.seq().len() == n') % dict(c=CNT)
+
 ITEMS = [
     Item(id='reversed', source=L, locator='fn reversed',
          ensures=[('reverses', 'r is Ok && r->Ok_0@ == v@.reverse()')], props=P),
@@ -89,5 +96,45 @@ let ghost ret0 = ret@;''', 'at'),
                 ('loop1:after', 'proof { assert(v@.take(v@.len() as int) =~= v@); }', 'at')],
          loops={1: dict(iter_name='it', invariant=[
              ('filtered_prefix', 'it.seq() == v@ && all_tested(f, v@, it.index@) && filter_rel(f, neg, v@.take(it.index@), ret@)')])},
+         props=P),
+    Item(id='grouped', source=L, locator='fn grouped', requires=[FIN, ('group_size_is_positive', 'n > 0')],
+         ensures=[
+             ('chunks_of_n', '(all_ok(it.remaining()) && !(strict && (it.remaining().len() as int) % (n as int) != 0)) ==> (r is Ok && chunks_ok(oks(it.remaining()), n as int, r->Ok_0@))'),
+             ('strict_leftover_is_an_argument_error', '(all_ok(it.remaining()) && strict && (it.remaining().len() as int) % (n as int) != 0) ==> (r is Err && err_class(r->Err_0) == ErrClass::Argument)'),
+             ('an_item_error_is_raised', '!all_ok(it.remaining()) ==> r is Err'),
+         ],
+         attrs=[NOISO],
+         hints=[(r'let mut acc = Vec::new\(\);', 'let ghost all = it.remaining(); let ghost vs = oks(all);', 'before'),
+                (r'let mut group = Vec::new\(\);', 'let ghost _ta: VSeq<Vec<T>> = acc@; let ghost _tg: VSeq<T> = group@;', 'after'),
+                ('loop1:body_start', 'let ghost d0 = it.decrease()->Some_0; let ghost c0: int = all.len() - it.remaining().len();', 'at'),
+                ('loop2:body_start', '''proof {
+    let k: int = all.len() - it.remaining().len();
+    let more = it.remaining().len() > 0;
+    assert(more ==> all.skip(k)[0] == all[k]);
+    assert((more && all[k] is Err) ==> !all_ok(all));
+    assert(more ==> all.take(k + 1).drop_last() =~= all.take(k));
+    assert(more ==> vs.subrange(c0, k + 1).drop_last() =~= vs.subrange(c0, k));
+    assert(more ==> vs[k] == all[k]->Ok_0);
+}''', 'at'),
+                (r'if !group\.is_empty\(\) \{', 'let ghost q0 = acc@.len() as int; let ghost g0 = group@;', 'before'),
+                (r'return Err\(NErr::argument_error', 'proof { assert(all.take(all.len() as int) =~= all); lemma_mod_of_multiple_plus(acc@.len() as int, group@.len() as int, n as int); }', 'before'),
+                (r'acc\.push\(group\);', 'proof { assert(all.take(all.len() as int) =~= all); lemma_mod_of_multiple_plus(acc@.len() as int, group@.len() as int, n as int); assert((acc@.len() + 1) * n == acc@.len() * n + n) by (nonlinear_arith); }', 'before'),
+                (r'return Ok\(acc\);', '''proof {
+    assert(all.take(all.len() as int) =~= all);
+    if g0.len() == 0 { lemma_mod_of_multiple_plus(q0, 0, n as int); }
+    assert forall|i: int| 0 <= i < acc@.len() implies (#[trigger] acc@[i])@ == vs.subrange(i * n, if i * n + n <= vs.len() { i * n + n } else { vs.len() as int }) by {
+        if i < q0 {
+            assert((i + 1) * n <= q0 * n) by (nonlinear_arith) requires i + 1 <= q0, n > 0;
+            assert((i + 1) * n == i * n + n) by (nonlinear_arith);
+        } else {
+            assert(i == q0);
+            assert(acc@[i]@ == g0);
+        }
+    }
+}''', 'before'),
+                (r'acc\.push\(std::mem::take\(&mut group\)\)', 'proof { assert((acc@.len() + 1) * n == acc@.len() * n + n) by (nonlinear_arith); assert(group@.len() == n); }', 'before'),
+                ],
+         loops={1: dict(invariant=[('whole_chunks_so_far', GROUPED_OUTER)], decreases='it.decrease()->Some_0'),
+                2: dict(iter_name='jt', invariant=[('chunk_in_progress', GROUPED_INNER)])},
          props=P),
 ]
